@@ -242,6 +242,8 @@ pub fn dump_ops(conn: i64, keys: &[&[u8]], ops: &mut Vec<Vec<Tok>>) {
             ops.push(cmd_op(conn, &[b"XPENDING", k, g]));
             ops.push(cmd_op(conn, &[b"XPENDING", k, g, b"-", b"+", b"1000"]));
             ops.push(cmd_op(conn, &[b"XINFO", b"CONSUMERS", k, g]));
+            // the per-consumer index, consumer by consumer
+            for c in [&b"c1"[..], b"c2", b"c3", b"c9"] { ops.push(cmd_op(conn, &[b"XPENDING", k, g, b"-", b"+", b"1000", c])); }
         }
         ops.push(cmd_op(conn, &[b"PTTL", k]));
     }
@@ -287,6 +289,7 @@ fn run_once(c: &Case) -> (Case, bool) {
     let mut r = Runner::new(&SrvOpts::default());
     let mut out = Case { id: c.id.clone(), ops: vec![], outs: vec![] };
     let mut autos: Vec<Vec<u8>> = vec![];
+    let mut closed = false;
     for op in &c.ops {
         let mut op2 = op.clone();
         let mut is_auto = false;
@@ -306,8 +309,11 @@ fn run_once(c: &Case) -> (Case, bool) {
         }
         let (o2, res) = r.op(&op2);
         if is_auto { let mut p = 0; if let Some(V::Bulk(id)) = V::dec(&res, &mut p) { autos.push(id); } }
+        if res == vec![b("CLOSED")] { closed = true; }
         out.ops.push(o2); out.outs.push(res);
     }
+    // a connection closed by the server usually means the process is exiting: let it finish
+    if closed { std::thread::sleep(std::time::Duration::from_millis(200)); }
     let drift = r.drift_bad;
     if !r.finish() { out.ops.push(vec![b("ALIVE")]); out.outs.push(vec![i(0)]); }
     (out, drift)
